@@ -632,6 +632,18 @@ def _facts(op, specs, config, sel=None, **extra):
     kw = op.get('kw', {})
     mr = kw.get('MRTS', 'omit')
     f['MRTS'] = mr if mr in ('omit', 'auto') else 'num'
+    # is any time difference of the trains involved (edges included) below the range in which its
+    # square is representable in double precision?
+    idx = sel if sel is not None else op.get('sel')
+    if idx is None and 'i' in op:
+        idx = [op['i']]
+    ts = set()
+    for i in (idx or range(len(specs))):
+        if 0 <= i < len(specs):
+            ts.update(specs[i]['s'])
+            ts.update(specs[i]['e'])
+    ts = sorted(ts)
+    f['underflow_scale'] = any(0 < b - a < 1e-150 for a, b in zip(ts, ts[1:]))
     f['normalize'] = kw.get('normalize', True)
     f.update(extra)
     return f
